@@ -83,10 +83,12 @@ fn shape_ok(p: &PatternNode, n: &Node<D>, cut: &Cut, altered: &std::cell::RefCel
 }
 
 fn pattern_has_all_holes(p: &PatternNode, cut: &Cut) -> bool {
+  // (a single hole and an ellipsis of the same name are different holes)
   fn collect(p: &PatternNode, out: &mut Vec<String>) {
     match p {
       PatternNode::MetaVar { meta_var } => match meta_var {
-        MetaVariable::Capture(n, _) | MetaVariable::MultiCapture(n) => out.push(n.clone()),
+        MetaVariable::Capture(n, _) => out.push(n.clone()),
+        MetaVariable::MultiCapture(n) => out.push(format!("...{n}")),
         _ => {}
       },
       PatternNode::Internal { children, .. } => children.iter().for_each(|c| collect(c, out)),
@@ -97,7 +99,7 @@ fn pattern_has_all_holes(p: &PatternNode, cut: &Cut) -> bool {
   collect(p, &mut names);
   let mut want: Vec<String> = cut.holes.iter().map(|h| h.0.clone()).collect();
   if let Some(m) = &cut.multi {
-    want.push(m.0.clone());
+    want.push(format!("...{}", m.0));
   }
   names.sort();
   want.sort();
@@ -138,7 +140,44 @@ fn check_source(rep: &Reporter, spec: &LangSpec, src: &str, max_holes: usize, st
         }
       };
       let altered = std::cell::RefCell::new(vec![]);
-      if !shape_ok(&pat.node, n, &cut, &altered) || !pattern_has_all_holes(&pat.node, &cut) {
+      if !pattern_has_all_holes(&pat.node, &cut) {
+        // a hole we wrote is not a meta variable of the pattern. If tree-sitter itself reads the
+        // hole text as ONE node of the cut (independent parse, own sigil rewriting), the pattern
+        // builder lost it: a violation, not a failed precondition
+        let ex = spec.lang.expando_char();
+        if !n.text().contains('$') && !n.text().contains(ex) {
+          let own_pre: String = if ex == '$' { cut.text.clone() } else { cut.text.replace('$', &ex.to_string()) };
+          let indep = spec.lang.ast_grep(&own_pre);
+          let mut cands = vec![];
+          all_nodes(&indep.root(), &mut cands);
+          let mut names = vec![];
+          fn collect(p: &PatternNode, out: &mut Vec<(String, bool)>) {
+            match p {
+              PatternNode::MetaVar { meta_var } => match meta_var {
+                MetaVariable::Capture(n, _) => out.push((n.clone(), false)),
+                MetaVariable::MultiCapture(n) => out.push((n.clone(), true)),
+                _ => {}
+              },
+              PatternNode::Internal { children, .. } => children.iter().for_each(|c| collect(c, out)),
+              _ => {}
+            }
+          }
+          collect(&pat.node, &mut names);
+          // (name, is an ellipsis, text written into the cut)
+          let wanted: Vec<((String, bool), String)> = cut.holes.iter().map(|(v, _)| ((v.clone(), false), format!("{ex}{v}"))).chain(cut.multi.iter().map(|m| ((m.0.clone(), true), format!("{ex}{ex}{ex}{}", m.0)))).collect();
+          for (name, text) in wanted {
+            if !names.contains(&name) && cands.iter().any(|c| c.text() == text.as_str() && !c.is_error() && !has_error(c)) {
+              rep.violation(
+                &format!("hole-is-one-node-of-the-cut-but-not-a-meta-variable-of-the-pattern:{}", if text.starts_with(&format!("{ex}{ex}{ex}")) { "ellipsis" } else { "single" }),
+                json!({"lang": spec.name, "src": src, "node": [n.range().start, n.range().end], "pattern": cut.text, "hole": name.0}),
+              );
+              break;
+            }
+          }
+        }
+        continue;
+      }
+      if !shape_ok(&pat.node, n, &cut, &altered) {
         continue; // precondition "parses to the same tree shape" not met: counted, not judged
       }
       let altered = altered.into_inner();
